@@ -225,7 +225,9 @@ pub fn hostile_doc(rng: &mut Rng, depth: u32) -> (String, Vec<&'static str>) {
             }
             10 => {
                 pairs.retain(|p| p.0 != "debug_id" && p.0 != "debugId");
-                pairs.push((rng.pick_str(&["debug_id", "debugId"]).to_string(), rng.pick_str(&["\"\"", "\"x\"", "\"00000000-0000-0000-0000-000000000000-ffffffff\"", "\"FFFFFFFF-FFFF-FFFF-FFFF-FFFFFFFFFFFF\"", "5"]).to_string()));
+                pairs.push((rng.pick_str(&["debug_id", "debugId"]).to_string(), rng.pick_str(&["\"\"", "\"x\"", "\"00000000-0000-0000-0000-000000000000-ffffffff\"", "\"FFFFFFFF-FFFF-FFFF-FFFF-FFFFFFFFFFFF\"", "5",
+                    // forms the DebugId parser accepts besides hyphenated UUIDs: PDB 2.0 (timestamp + age), unhyphenated, breakpad-like
+                    "\"000222220000\"", "\"4a7fe2c3-1\"", "\"0002222200000000000000000000000000\"", "\"DFB8E43AF2423D73A453AEB6A777EF75a\"", "\"dfb8e43a-f242-3d73-a453-aeb6a777ef75-a\""]).to_string()));
                 fam.push("hostile-debug-id");
             }
             11 => {
